@@ -747,7 +747,27 @@ def r20_13(chk):
     chk.floor("R20.13", 4, "take_columns, get_columns, sum_columns, to_categorical")
 
 
+def r20_14(chk):
+    chk.rule("R20.14", "whether a column is numeric is decided on ALL its cells: cast_str_to_numeric tries the conversions on the whole array and leaves the column as text only when they fail -- no early exit on a look at one cell (`values[0]`): 'nan', 'inf', 'Infinity' start with a letter and are numbers, so a float column whose FIRST row is missing would come back from a delimited file as text")
+    m = chk.repo.module("util/table.py")
+    fn = m.func("cast_str_to_numeric")
+    p0 = params_of(fn)[0]
+    bad = None
+    for iff in walk_no_nested(fn):
+        if isinstance(iff, ast.If) and any(isinstance(x, ast.Return) for x in iff.body):
+            # a look at the CONTENT of one cell (a string method, a slice of it, a comparison); an isinstance() test of
+            # its type -- are these strings at all? -- is not a decision about the column's values
+            cells = [x for x in ast.walk(iff.test) if isinstance(x, ast.Subscript) and norm(x.value) == p0 and isinstance(x.slice, (ast.Constant, ast.UnaryOp))]
+            typed_only = [c for c in cells if any(isinstance(call, ast.Call) and norm(call.func) == "isinstance" and call.args and call.args[0] is c for call in ast.walk(iff.test))]
+            if [c for c in cells if c not in typed_only]:
+                bad = iff
+    casts = [c for c in walk_no_nested(fn) if isinstance(c, ast.Call) and isinstance(c.func, ast.Attribute) and c.func.attr == "astype"]
+    chk.decide(bad is None and bool(casts), "R20.14", key(m, "cast_str_to_numeric", "no decision on a single cell"), m.loc(bad if bad is not None else fn), "the conversions run on the whole array", f"`if {norm(bad.test)[:70] if bad is not None else ''}: return ...` decides for the whole column from one cell: a float column whose first cell is 'nan' / 'inf' is returned as text")
+    chk.floor("R20.14", 1, "cast_str_to_numeric")
+
+
 def run(chk):
+    r20_14(chk)
     r20_13(chk)
     r20_12(chk)
     r20_11(chk)
